@@ -58,6 +58,17 @@ def gen_strat_cases(rng, tier, names=None, per=None):
                 n = [0, 1, max(0, w - 1), w, w + 1, 2 * w + 3, rng.randrange(0, maxlen), rng.randrange(w, w + 50), w + 2][j % 9]
             o, regime = gen_ohlcv(rng, n, REGIMES[j % len(REGIMES)] if j % 2 else None)
             cases.append((name, ns, fs, o, regime))
+        # the smallest admissible parameters (period 1 and the like), always — not only when they happen to be drawn
+        from c_runtime import PatternRng
+        for pat, regime in ((0, 'walk'), (0, 'zigzag'), (1, 'walk'), (2, 'wide')):
+            try:
+                ns, fs = sc['cfg'](PatternRng(rng, pat), hi)
+            except Exception:
+                continue
+            ns, fs = list(ns), list(fs)
+            w = strat_idle(name, ns)
+            o, regime = gen_ohlcv(rng, w + rng.randrange(6, 40), regime)
+            cases.append((name, ns, fs, o, regime))
     return cases
 
 
@@ -399,6 +410,13 @@ def check_c06(res, tier, replay):
                 ns, fs = list(ns), list(fs)
                 n = strat_idle(name, ns) + rng.randrange(15, 90)
                 o, regime = gen_ohlcv(rng, n, 'wide' if j % 2 else None)
+                cases.append((name, ns, fs, o, regime))
+            # the smallest admissible parameters (period 1 and the like) and the other extreme combinations, always
+            from c_runtime import PatternRng
+            for pat in (0, 1, 2):
+                ns, fs = sc['cfg'](PatternRng(rng, pat), 8 if tier == 'quick' else 25)
+                ns, fs = list(ns), list(fs)
+                o, regime = gen_ohlcv(rng, strat_idle(name, ns) + rng.randrange(20, 70), rng.choice(['walk', 'wide', 'zigzag']))
                 cases.append((name, ns, fs, o, regime))
             # a long flat opening: indicators whose formula divides by the movement are undefined there, the rule says Hold
             for j in range(2 if tier == 'quick' else 8):
